@@ -28,6 +28,9 @@ pub fn walk_args(input: &Value, files0: Option<&std::path::Path>) -> Vec<String>
     let flag = cfg.get("modeflag").and_then(|m| m.as_str()).unwrap_or("");
     match cfg["mode"].as_str().unwrap_or("P") {
         "H" => a.push("-H".into()),
+        // -follow in the expression follows every link, whatever -H / -P said before the starting points
+        "L" if flag == "Hfollow" => a.push("-H".into()),
+        "L" if flag == "Pfollow" => a.push("-P".into()),
         "L" if flag != "follow" => a.push("-L".into()),
         "P" if flag == "Pexplicit" => a.push("-P".into()),
         _ => {}
@@ -53,7 +56,7 @@ pub fn walk_args(input: &Value, files0: Option<&std::path::Path>) -> Vec<String>
             a.push(max.to_string());
         }
     };
-    if flag == "follow" {
+    if flag == "follow" || flag == "Hfollow" || flag == "Pfollow" {
         a.push("-follow".into());
     }
     if cfg.get("xdev").and_then(|x| x.as_bool()).unwrap_or(false) {
@@ -230,11 +233,11 @@ impl Prop for PWalk {
                 let parent = if rng.chance(1, 2) { holder } else { 1 };
                 tree.push(json!({"parent": parent, "name": str_to_json(nm), "kind": "l", "target": real}));
             }
-            let mode = *rng.pick(&["L", "L", "follow", "P", "H"]);
-            let mut cfg = json!({"mode": if mode == "follow" { "L" } else { mode }, "min": *rng.pick(&[0u64, 0, 1, 2]), "max": *rng.pick(&[NOMAX, NOMAX, 3, 4]),
+            let mode = *rng.pick(&["L", "L", "follow", "P", "H", "Hfollow"]);
+            let mut cfg = json!({"mode": if mode.ends_with("follow") { "L" } else { mode }, "min": *rng.pick(&[0u64, 0, 1, 2]), "max": *rng.pick(&[NOMAX, NOMAX, 3, 4]),
                                  "depth": rng.chance(1, 4), "sorted": rng.chance(2, 3), "prune": []});
-            if mode == "follow" {
-                cfg["modeflag"] = json!("follow");
+            if mode.ends_with("follow") {
+                cfg["modeflag"] = json!(mode);
             }
             return json!({"tree": tree, "roots": [{"spell": str_to_json("top"), "node": 1}], "cfg": cfg, "form": rng.below(30)});
         }
@@ -336,7 +339,7 @@ impl Prop for PWalk {
             };
             roots.push(json!({"spell": str_to_json(&spell), "node": t}));
         }
-        let mode = *rng.pick(&["P", "P", "H", "L", "L", "Pexplicit", "follow"]);
+        let mode = *rng.pick(&["P", "P", "H", "L", "L", "Pexplicit", "follow", "Hfollow", "Pfollow"]);
         let (mut min, mut max) = (0u64, NOMAX);
         if rng.chance(1, 2) {
             min = rng.below(4) as u64;
@@ -346,7 +349,7 @@ impl Prop for PWalk {
         }
         let depth = rng.chance(1, 3);
         let sorted = nroots > 1 || rng.chance(2, 3);
-        let mut cfg = json!({"mode": if mode == "Pexplicit" { "P" } else if mode == "follow" { "L" } else { mode }, "min": min, "max": max, "depth": depth, "sorted": sorted, "prune": []});
+        let mut cfg = json!({"mode": if mode == "Pexplicit" { "P" } else if mode.ends_with("follow") { "L" } else { mode }, "min": min, "max": max, "depth": depth, "sorted": sorted, "prune": []});
         if self.flavour == "C03" {
             // choose prune paths among the paths of directories below the roots (as find would print them)
             let mut cands: Vec<String> = vec![];
@@ -449,7 +452,7 @@ impl Prop for PWalk {
         }
         let roots_last_empty = roots.last().map(|r| arr(&r["spell"]).is_empty()).unwrap_or(false);
         let mut v = json!({"tree": tree, "roots": roots, "cfg": cfg, "form": rng.below(30)});
-        if mode == "Pexplicit" || mode == "follow" {
+        if mode == "Pexplicit" || mode.ends_with("follow") {
             v["cfg"]["modeflag"] = json!(mode);
         }
         if self.flavour == "C18" && !use_files0 && rng.chance(1, 8) {
